@@ -47,9 +47,10 @@ CASES = [
     ("m24_web_reordered_appends", "detect_website: the section before the URL is appended after the URL section (reordered statements)",
      [(WEB, "            if start_of_url != 0:\n                # Using the section vs working_section to preserve capitalization\n                parsing.append((section[0][0:start_of_url],None))\n\n            # Add the URL to the parsing\n            parsing.append((working_string[start_of_url:end_of_url],'W'))\n",
        "            # Add the URL to the parsing\n            parsing.append((working_string[start_of_url:end_of_url],'W'))\n\n            if start_of_url != 0:\n                # Using the section vs working_section to preserve capitalization\n                parsing.append((section[0][0:start_of_url],None))\n")]),
-    ("m25_web_next_occurrence_restart", "detect_website: after a false positive the search restarts at the TLD itself, not after it (total_index += len(tld) dropped)",
-     [(WEB, "                    total_index += len(tld)\n                    end_index = working_string[total_index:].find(tld)",
-       "                    end_index = working_string[total_index:].find(tld)")]),
+    ("m25_web_dot_after_tld_accepted", "detect_website: a TLD followed by '.' is accepted (the false-positive loop tests '-' instead of '.')",
+     [(WEB, "(working_string[total_index + len(tld)] == '.'):", "(working_string[total_index + len(tld)] == '-'):")]),
+    # (not kept: dropping `total_index += len(tld)` in the false-positive loop makes the real code loop forever, so the
+    #  in-process run of the implementation hangs until the shell timeout and no verdict line is printed)
     ("m30_kbd_run_on_other_layout", "seeded C05-4: keyboard_run_list = dict(current_runs): a run may continue on a different layout",
      "SEEDED:C05-4"),
     ("m31_kbd_run_list_one_expression", "seeded C05-6: the keyboard_run_list bookkeeping 'tidied' into one expression",
